@@ -206,13 +206,13 @@ def judgeHStep (dim3 : Bool) (st : HStep) : P String := do
     | none => pure (if t = "U" then "skip unsupported-pair" else s!"fail route={st.A.sh.kind}x{st.B.sh.kind} non-finite-distance")
     | some x =>
       if !okF x then pure s!"fail route={st.A.sh.kind}x{st.B.sh.kind} non-finite-distance" else
-      pure (judgeDist st.A st.B (q x) (hintsOf tl.1 id st.B.pose.act) tl.2 (!dim3))
+      pure (judgeDist st.A st.B (q x) (hintsOf tl.1 id st.B.pose.act) tl.2 (!dim3) (gjkTolScale st.A st.B))
   else do
     let r ← praw dim3
     let tl ← ptail dim3
     match r.toRes id id with
     | none => pure s!"fail route={st.A.sh.kind}x{st.B.sh.kind} non-finite-witness"
-    | some res => pure (judgeCP st.A st.B st.maxDist res (hintsOf tl.1 id st.B.pose.act) tl.2 (!dim3))
+    | some res => pure (judgeCP st.A st.B st.maxDist res (hintsOf tl.1 id st.B.pose.act) tl.2 (!dim3) (gjkTolScale st.A st.B))
 
 /-- every step of the history is judged like a fresh query (history independence): first failure wins -/
 def oracleHistory (dim3 : Bool) (a o : List String) : String :=
@@ -378,7 +378,7 @@ def judgeMStep (dim3 : Bool) (st : HStep) : P String := do
   let route := s!"route={st.A.sh.kind}x{st.B.sh.kind}"
   if st.isDist then do
     let x ← pfo; let _ ← C01.Gjk.pobs dim3
-    if !okF x then pure s!"fail {route} non-finite-distance" else pure (judgeDist st.A st.B (q x) [] [] (!dim3))
+    if !okF x then pure s!"fail {route} non-finite-distance" else pure (judgeDist st.A st.B (q x) [] [] (!dim3) (gjkTolScale st.A st.B))
   else do
     let t ← tok
     let res : Option Res ← (match t with
@@ -391,7 +391,7 @@ def judgeMStep (dim3 : Bool) (st : HStep) : P String := do
     let _ ← C01.Gjk.pobs dim3
     match res with
     | none => pure s!"fail {route} non-finite-witness"
-    | some r => pure (judgeCP st.A st.B st.maxDist r [] [] (!dim3))
+    | some r => pure (judgeCP st.A st.B st.maxDist r [] [] (!dim3) (gjkTolScale st.A st.B))
 
 def oracleMHistory (dim3 : Bool) (a o : List String) : String :=
   match run (plist (phstep dim3)) a with
